@@ -376,6 +376,6 @@ func C18(r *core.Run) {
 	r.Cov["distinct_nontrivial"] = tot.Accepted
 	r.Cov["exhaustive"] = len(deaths) == 0
 	r.Cov["bound"] = map[string]any{"digits": c18Digits, "chain_part": c18K, "extensions": c18Ext, "decorations": c18Deco, "start_dirs": len(starts), "dir_modes": 5}
-	r.Cov["rule"] = "all argument strings digits x chain part x extension (x decorations for the 6-digit ones) x {generate, update, compare, format} against a tree in which every spelled file exists and contains its own name and rule 123456 has three chained links with distinct operands, so stdout / the changed line reveal file and offset; all start directories of a tree with an outer root, a nested inner root and a rootless sibling x 5 ways of passing the directory; one --all run over grammar and non-grammar file names; non-trivial = accepted cases whose resolution was observed"
+	r.Cov["rule"] = "all argument strings digits x chain part x extension (x decorations for the 6-digit ones) x {generate, update, compare, format} against a tree in which every spelled file exists and contains its own name and rule 123456 has three chained links with distinct operands, so stdout / the changed line reveal file and offset; all start directories of a tree with an outer root, a nested inner root and a rootless sibling x 5 ways of passing the directory; one --all run over grammar and non-grammar file names; non-trivial = accepted cases whose resolution was observed; extensions include glued ones (xra, _ra, -ra, ra); roots include a regex-assembly that is a symbolic link, a root reached through a linked directory and a dangling link"
 	r.Cov["samples"] = []any{"regex update 123456-chain01", "regex generate ' 123456'", "regex format 123456.ra.ra", "-d outer/a/b/c/d regex generate 123456"}
 }
